@@ -113,10 +113,13 @@ var c26Templates = [][]c26Item{
 }
 
 // template subsets: the quick BFS uses all of them up to 3 lines
-func c26MC() string {
+func c26MC() string { return c26MCn(len(c26Templates)) }
+
+// c26MCn: the first k templates only
+func c26MCn(k int) string {
 	var b strings.Builder
 	b.WriteString("c_Templates == <<")
-	for i, t := range c26Templates {
+	for i, t := range c26Templates[:k] {
 		if i > 0 {
 			b.WriteString(", ")
 		}
@@ -821,10 +824,11 @@ func c26RunTLC(c *core.Ctx, o core.TLCOpts, st *c26Stats) error {
 }
 
 func c26Timeout(c *core.Ctx) time.Duration {
+	// (safety nets: under heavy load TLC runs several times slower)
 	if c.Thorough() {
-		return 14 * time.Minute
+		return 40 * time.Minute
 	}
-	return 4 * time.Minute
+	return 20 * time.Minute
 }
 
 const c26Invs = "TypeOK DepthIsStack ModeConsistent BoundaryIsComplete Emit"
@@ -834,10 +838,18 @@ func runC26(c *core.Ctx) error {
 	st := &c26Stats{}
 	c.MaxViolations = 40 // two per signature are written out
 	// (M)+(R) bounded-exhaustive
-	n := c.Pick(3, 4)
-	if err := c26RunTLC(c, core.TLCOpts{Spec: "Reader", MCDefs: mc, CfgName: fmt.Sprintf("bfs-%d-lines", n),
-		Cfg: c26Cfg(n, 0, false, true, c26Invs), Workers: 6, Timeout: c26Timeout(c)}, st); err != nil {
+	// every sequence of 3 lines over all templates; in thorough also every sequence of 4 lines
+	// over the first 36 (the later ones - division before a bracket, raw tabs, an identifier
+	// ending in a digit, very long lines - multiply the 4-line space by 2.4)
+	if err := c26RunTLC(c, core.TLCOpts{Spec: "Reader", MCDefs: mc, CfgName: "bfs-3-lines",
+		Cfg: c26Cfg(3, 0, false, true, c26Invs), Workers: 6, Timeout: c26Timeout(c)}, st); err != nil {
 		return err
+	}
+	if c.Thorough() {
+		if err := c26RunTLC(c, core.TLCOpts{Spec: "Reader", MCDefs: c26MCn(36), CfgName: "bfs-4-lines",
+			Cfg: c26Cfg(4, 0, false, true, c26Invs), Workers: 6, Timeout: c26Timeout(c)}, st); err != nil {
+			return err
+		}
 	}
 	c.Exhaustive = true
 	// (R) longer inputs, sampled
